@@ -122,6 +122,10 @@ def tie(tier, seed, replay):
     nskipped = sum(1 for r in results if r.get("skipped"))
     results = [r for r in results if not r.get("skipped")]
     mism = []
+    # the planner model (Plan/PlanModel.v, c06_planned_runs_invariant) vs the dumped plan of every base program
+    if not replay:
+        from .. import plan_model
+        mism += plan_model.check_cases([c for c in cases if not str(c["id"]).startswith("corpus_")], tag="plan_c06")
     for r in results:
         mism += engine_tie.compare_case(r)
     # the variants: real macro + rustc only; expected = the base program's specification answer, mapped
